@@ -120,7 +120,7 @@ def d2_core(ctx, res, funcs):
                 res.ok(f, node, reason=f"{why}: used for identity/membership only")
             else:
                 st = P.enclosing_stmt(node)
-                res.violation(f, st if st is not None else node, detail={"source": norm(node)},
+                res.violation(f, node, detail={"statement": norm(st)[:200] if st is not None else ""},
                               reason=f"process-dependent value ({why}) may reach generated output or ordering")
         # default (address-bearing) repr of repo instances interpolated into strings
         for node in walk_own(f.body):
@@ -155,3 +155,37 @@ def d2(ctx, res):
     if sites != {"d2_bad"} or len(bad) < 6:
         raise AnalysisError(f"D2 positive control failed: expected >=6 sources reported in d2_bad only, got {len(bad)} in {sorted(sites)}")
     res.stat("positive_control", f"{len(bad)} sources reported in d2_bad; d2_ok silent")
+
+
+@rule("D3", "generated output does not depend on process history: no caches, no writes to module-level state")
+def d3(ctx, res):
+    from . import effects
+    from .rules_p import CACHE_DECORATOR_WORDS
+    ef = ctx.get("effects", effects.build)
+    reach = generation_reach(ctx)
+    n_dec = 0
+    for f in sorted(reach, key=lambda f: f.qualname):
+        for d in f.decorators:
+            n_dec += 1
+            dn = dotted(d.func if isinstance(d, ast.Call) else d) or norm(d)
+            bad = any(w in dn.lower() for w in CACHE_DECORATOR_WORDS)
+            res.check(not bad, f, f"@{dn}", reason="no caching decorator in the generation graph (a cached rendering or parse "
+                                                   "makes the output depend on what the process generated earlier)")
+    n_g = 0
+    for f in sorted(reach, key=lambda f: f.qualname):
+        for origin, atoms in ef.all_writes(f):
+            real = set(atoms) - {effects.F}
+            if real != {effects.G}:
+                continue  # not (only) module-level state
+            n_g += 1
+            tolerated = None
+            if f.short == "NotPassed.__new__":
+                tolerated = "import-time singleton (P2)"
+            if tolerated:
+                res.justified(f, origin.node, tolerated)
+            else:
+                res.violation(f, origin.node,
+                              reason="write to module-level / class-level state reachable from generation: output would "
+                                     "depend on earlier calls in the same process")
+    res.stat("decorators_in_graph", n_dec)
+    res.stat("global_write_origins", n_g)
